@@ -1,7 +1,7 @@
 from _common import COMMON_NOTE
 
 META = {'title': 'Emulation is deterministic and independent of how the host drives it',
- 'lean_modules': ['ZxVerif.Props.C16'],
+ 'lean_modules': ['ZxVerif.Props.C16', 'ZxVerif.Props.C16Sys'],
  'modelled_code': ['rustzx-core/src/emulator/mod.rs (emulate_frames: frame loop, cpu loop, event handling, '
                    'FrameCount/Max, stopwatch time-out)',
                    'rustzx-core/src/zx/controller.rs (passed_frames, reset_frame_counter, frames_count, '
@@ -41,7 +41,11 @@ META = {'title': 'Emulation is deterministic and independent of how the host dri
                'what the host does to it (mixer_noninterference); read_exact yields the same buffer/outcome/position for every '
                'productive chunking and EOF convention (read_exact_chunking) and so does every loader built from read_exact/seek '
                '(loader_chunking_independent). PARTIAL by construction (DESIGN section 10): the theorems are about an abstract '
-               'loop; the tie to the real CPU/controller is the metamorphic equation itself, checked on every run on the real '
+               'loop; the loop theorems are now also instantiated for the composed Lean machine (Props/C16Sys.lean: Z80 model on the '
+               'Spectrum bus model, zxMachine; crossed <= 1 and the Timed clock are proved for every regular state, so '
+               'zx_slicing_irrelevant, zx_drivings_agree, zx_frames_accounting_*, zx_fuel_suffices_* carry no machine hypothesis '
+               'besides Good of the start state), and that machine is tied to the real Emulator by the lock-step correspondence of '
+               'C04/C05 (harness/src/sys.rs), not by C16\'s own check; the tie to the real CPU/controller is the metamorphic equation itself, checked on every run on the real '
                'emulator (scenario x driving pairs, every frame boundary, registers/RAM/banks/frame buffers/clock/audio), plus a '
                'differential check of the loop logic and of read_exact/seek against the compiled model.',
  'level_note': COMMON_NOTE + ' C16 specifically: the main tie is METAMORPHIC ON THE REAL CODE, not a step-by-step model of the '
@@ -50,5 +54,6 @@ META = {'title': 'Emulation is deterministic and independent of how the host dri
                'different drivings and run twice; hashes compared at every common frame boundary). The loop control logic of '
                'emulate_frames itself (stop reasons, number of steps per call, frame counter, stopwatch reads, where a call stops '
                'relative to the frame boundary) and read_exact/seek are tied to the model differentially. flate2 (gzip) and the '
-               'operating system file API are parameters. No bv_decide is used.',
+               'operating system file API are parameters. Props/C16.lean uses no bv_decide; the instances in Props/C16Sys.lean '
+               'inherit the bv_decide axioms of the invariant they build on (C04Sys.paging_port_low, C06.bank_lt, C06.rom_bit).',
  'timeout_s': {'quick': 600, 'thorough': 6 * 3600}}
